@@ -413,11 +413,109 @@ func c02Describe() {
 	rec.Rule = "rapid draws a message shape (QP or base64 message encoding, i.e. Q or B word encoder; 0..2 parts, 0..1 embeds, 0..2 attachments) and feeds hostile strings (each with a unique marker; fragments: CR/LF/CRLF + 'X-Inj-<marker>: 1', CRLF CRLF + body, NUL/C0/DEL, invalid UTF-8, RFC 5322 specials, encoded-word lookalikes, words of 60..300 bytes, many words, blanks, non-ASCII text, arbitrary bytes, header/boundary lookalikes) " +
 		"to a drawn subset of: Subject, SetGenHeader (1..3 values, standard and X- names), SetMessageIDWithValue, SetOrganization, SetUserAgent, display names via FromFormat/EnvelopeFromFormat/ReplyToFormat/AddToFormat/AddCcFormat/AddBccFormat/To/ToIgnoreInvalid/RequestMDNToFormat/RequestMDNAddToFormat, file names, file descriptions, file content-ids, part descriptions. " +
 		"Oracle: strict scan of every header section of WriteTo's output: only field and continuation lines; field-name multiset == fields set + documented defaults; leaves carry exactly the supplied content (so no section ended early); every free-text value RFC 2047-decodes (whitespace-normalised) to the string set; address fields parse (own RFC 5322 parser) to the names and mailboxes set; or the setter returned an error. " +
-		"Non-trivial: some string has a byte outside printable ASCII, an RFC 5322 special, or > 60 bytes. Distinct by (encoder, shape, setter sequence, class set, which setters were used)."
+		"TestC02Enum additionally feeds every string of a fixed list of ~70 single hostile strings (each CR/LF injection form, each control/special/non-ASCII constant, lookalikes, 300-byte words) to every one of 22 setters x both encoders x 4 shapes, completely. Non-trivial: some string has a byte outside printable ASCII, an RFC 5322 special, or > 60 bytes. Distinct by (encoder, shape, setter sequence, class set, which setters were used)."
 	rec.Assumptions = []string{"*Preformatted setters and header names are excluded (raw by contract)", "IgnoreInvalid setters may drop an entry silently; then the field must be absent"}
 }
 
 func TestC02(t *testing.T) {
 	c02Describe()
 	core.Prop[c02Case]{ID: "C02", Test: "TestC02", Gen: c02Gen, Run: c02Run}.Check(t)
+}
+
+// TestC02Enum feeds every single hostile string of the fixed list to every text-accepting setter,
+// for both word encoders and four message shapes (finite space, covered completely).
+func TestC02Enum(t *testing.T) {
+	if core.ReplayArg != "" {
+		t.Skip()
+	}
+	c02Describe()
+	p := core.Prop[c02Case]{ID: "C02", Test: "TestC02", Run: c02Run}
+	plain := func(n int) []gen.PartSpec {
+		var out []gen.PartSpec
+		for i := 0; i < n; i++ {
+			ct := "text/plain"
+			if i == 1 {
+				ct = "text/html"
+			}
+			out = append(out, gen.PartSpec{CType: ct, Content: []byte("body text\r\n"), Via: "string"})
+		}
+		return out
+	}
+	file := func(name string) gen.FileSpec {
+		return gen.FileSpec{Name: name, Content: []byte("file content"), Source: "reader"}
+	}
+	type shape struct {
+		parts, embeds, attach int
+	}
+	shapes := []shape{{1, 0, 0}, {2, 0, 1}, {1, 1, 1}, {0, 0, 1}}
+	setters := []string{"subject", "genheader", "genheader3", "msgid", "org", "ua", "partdesc", "filename", "filedesc", "filecid", "embedname", "embedcid"}
+	setters = append(setters, c02Setters...)
+	idx := 0
+	for _, enc := range []string{"quoted-printable", "base64"} {
+		for _, sh := range shapes {
+			for _, setter := range setters {
+				for k, hs := range gen.HostileSingles("MK7") {
+					idx++
+					if idx%core.Shards != core.Shard {
+						continue
+					}
+					spec := gen.MsgSpec{Encoding: enc, FixedDate: true, Parts: plain(sh.parts)}
+					for i := 0; i < sh.embeds; i++ {
+						spec.Embeds = append(spec.Embeds, file("embed.png"))
+					}
+					for i := 0; i < sh.attach; i++ {
+						spec.Attachments = append(spec.Attachments, file("attach.bin"))
+					}
+					c := c02Case{Spec: spec}
+					s := hs
+					switch setter {
+					case "subject":
+						c.Spec.Subject = &s
+					case "genheader":
+						c.Spec.Headers = []gen.HeaderSpec{{Name: "X-Custom-A", Values: []string{s}}}
+					case "genheader3":
+						c.Spec.Headers = []gen.HeaderSpec{{Name: "Keywords", Values: []string{"first", s, "last"}}}
+					case "msgid":
+						c.MessageID = &s
+					case "org":
+						c.Organization = &s
+					case "ua":
+						c.UserAgent = &s
+					case "partdesc":
+						if len(c.Spec.Parts) == 0 {
+							continue
+						}
+						c.Spec.Parts[len(c.Spec.Parts)-1].Desc = s
+					case "filename", "filedesc", "filecid":
+						if len(c.Spec.Attachments) == 0 {
+							continue
+						}
+						switch setter {
+						case "filename":
+							c.Spec.Attachments[0].Name = s
+						case "filedesc":
+							c.Spec.Attachments[0].Desc = s
+						default:
+							c.Spec.Attachments[0].CID = s
+						}
+					case "embedname", "embedcid":
+						if len(c.Spec.Embeds) == 0 {
+							continue
+						}
+						if setter == "embedname" {
+							c.Spec.Embeds[0].Name = s
+						} else {
+							c.Spec.Embeds[0].CID = s
+						}
+					default:
+						c.Addrs = []c02Addr{{Setter: setter, Name: s, Addr: fmt.Sprintf("u%d@verif.example", k)}}
+					}
+					core.Rec("C02").AddExtra("enumerated_setter_string_cases", 1)
+					if v := p.RunOne(c); v != nil {
+						t.Fatalf("VIOLATION-DETAIL property=C02 %s", v)
+					}
+				}
+			}
+		}
+	}
 }
